@@ -145,6 +145,19 @@ CLAIMED = {
         'Trusted: Coq kernel, extraction, harness. Pickle stream and source printer are oracle-only. Known findings: style-like strings, '
         '__class__ kwparam, unbracketed decorator list in model source.',
         '7 C14'),
+    'C15': (
+        'Coq statements over regenerated closed terms (translator re-reads bootstrap.py, bootparser.py, _tatsu.ebnf and regenerates the parser) + four-parser differential',
+        'A translator turns the shipped artefacts (tatsu/bootstrap.py, tatsu/bootparser.py GRAMMAR_MODEL, tatsu/_tatsu.ebnf, grammar/tatsu.ebnf) and '
+        'the parser regenerated from the grammar file into Coq terms on every run; proved (decidable equality on trees, with a sound difference '
+        'finder): GRAMMAR_MODEL = compile(_tatsu.ebnf).optimized(); the syntax trees of bootstrap.py/bootparser.py equal those of the regenerated '
+        'sources; the shipped generated parser, the interpreted grammar, bootparser and the regenerated parser build the same model on the '
+        'grammar file itself; every name binding of the TatSu grammar except four examined rules lies in the fragment where generated code '
+        'binds the returned value (C02 theorem instantiated). The for-all-texts agreement is tied by a differential: grammar texts generated '
+        'from the TatSu grammar (all productions and alternatives covered) and mutants go through the four parsers; decision, exception class '
+        'and position, and the resulting models are compared.',
+        'Trusted: Coq kernel, translator T8, harness. GrammarSemantics and the generated-code runtime are not modelled: agreement on every '
+        'text other than the regenerated artefacts rests on the differential, so the level is partial for the quantifier over all texts.',
+        '7 C15'),
     'C16': (
         'Coq proof of exactness of the left-recursion analysis + exhaustive small rule graphs + runtime recursion oracle',
         'LeftRec.v models nullable/_is_nullable_safe/_callable_rule_ids, the first graph, components by mutual reachability and the leader '
